@@ -7,7 +7,10 @@ CHECKS = {
     'C01': dict(level='exploration', runs=_e1('C01'), percase=5, deadline=dict(quick=150, thorough=1500)),
     'C02': dict(level='exploration', runs=_e1('C02'), percase=5, deadline=dict(quick=150, thorough=1500)),
     'C03': dict(level='exploration', runs=_e1('C03'), percase=5, deadline=dict(quick=150, thorough=1500)),
-    'C04': dict(level='exploration', runs=_e1('C04'), percase=5, deadline=dict(quick=150, thorough=1500)),
+    'C04': dict(level='exploration', runs=_e1('C04') + _e1('C04x', 'h_e1x'), percase=5, deadline=dict(quick=200, thorough=1500)),
+    'C05': dict(level='exploration', runs=_e1('C05', 'h_e1x'), percase=5, deadline=dict(quick=150, thorough=1500)),
+    'C12': dict(level='exploration', runs=_e1('C12', 'h_e1x'), percase=5, deadline=dict(quick=150, thorough=1500)),
+    'C13': dict(level='exploration', runs=_e1('C13', 'h_e1x'), percase=5, deadline=dict(quick=150, thorough=1500)),
 }
 
 _E1_NOTE = ('Bounded: orders n<=8 (all patterns only for n<=4), the listed value schemes, orderings, thresholds, tuning tuples; trusted base = the harness, '
@@ -27,3 +30,17 @@ META = {
                 note=_E1_NOTE + ' Known findings F8 (memory error in xgstrf on singular input) and F9 (no structural-rank test) are reported as KNOWN-FINDING.'),
 }
 NOT_APPLICABLE = {}
+
+_X_NOTE = _E1_NOTE + ' Expert driver called with Fact=DOFACT; histories over other Fact modes are C06.'
+META.update({
+    'C05': dict(engine='E1 small-scope enumerator', design_ref='5/C05', technique='bounded exhaustive enumeration of inputs x Trans x Equil x refinement x storage x configurations on the real xgssvx with reference-model oracle',
+                text='Every case of the product (all structurally nonsingular patterns of order <=4, deviation-1 neighbourhoods of 6x6 bases, badly scaled value schemes, Trans N/T/C, Equil, IterRefine, NC/NR, orderings, tunings, 4 types) is judged: equed letter, bit-exact scaling of A and B by exactly the named factors, padding untouched, and the componentwise residual bound of the scaled system built from the returned factors.',
+                note=_X_NOTE + ' Known findings F10 (NR+CONJ on complex data solves the transpose) and F11 (a refinement step can degrade X for matrices ill-conditioned in working precision) are reported as KNOWN-FINDING.'),
+    'C12': dict(engine='E1 small-scope enumerator', design_ref='5/C12', technique='bounded exhaustive enumeration with explicit-inverse reference (extended precision) for the condition number and recomputed pivot growth',
+                text='Product over patterns x value schemes incl. nearly singular and graded ones x Trans x Equil x storage x types; oracle: rcond >= (1-theta)/kappa with kappa from the explicit inverse of the returned factors in the norm the driver selects, rcond <= 1, info=n+1 iff rcond<eps, recip_pivot_growth equal to min_j max|A_j|/max|U_j| recomputed from the stored factors, also over the leading columns of singular factorizations of every pattern of order <=4.',
+                note=_X_NOTE + ' F8/F13 (degenerate structure after a singular return) are reported as KNOWN-FINDING; F12 (dirty work vector in sp_ctrsv/sp_ztrsv) was repaired by a fix: commit.'),
+    'C13': dict(engine='E1 small-scope enumerator', design_ref='5/C13', technique='bounded exhaustive enumeration with extended-precision recomputation of the componentwise backward error',
+                text='Product over patterns x value schemes x rhs shapes (generic, zero column, zero components, A e_k) x Trans x Equil x storage x types; oracle: |BERR - omega| <= 2(n+2)eps with omega recomputed in extended precision for the system actually factored (safe1/safe2 guard honoured), FERR finite >= 0, RefineSteps <= 5; refinement off: FERR=BERR=1 exactly and X equals the plain solve with the returned factors.',
+                note=_X_NOTE),
+})
+META['C04']['text'] += ' The expert driver is run over every pattern of order <=4 as well: a singular return leaves B bit-identical and X unwritten.'
